@@ -67,7 +67,7 @@ ID = 'C18'
 LEVEL = 'exploration'
 P_TARGETS = []
 BUDGET = {'quick': 33.0, 'thorough': 420.0}
-CHUNK = 24
+CHUNK = 12
 BOUNDS = {
     'quick': {'molecules': 'fixed list (21 hand-written + 11 E/Z), 53 single fragments, 112 ordered pairs, 26 homopolymers, '
                            '100 seeded random assemblies (<= 6 beads, <= 1 ring of beads, shared-atom chains); '
@@ -80,7 +80,7 @@ BOUNDS = {
                               'assemblies (<= 8 beads); weighted: 81 fixed + 1500 seeded random',
                  'roundtrip': '10 labelings x {no conformer, conformer} + implicit-hydrogen form x 3 labelings',
                  'embed': '6 labelings per molecule',
-                 'fmap': '8 labelings x 5 position seeds x 2 translations per weighted molecule',
+                 'fmap': '8 labelings x 3 position seeds x 2 translations per weighted molecule',
                  'max_atoms': 'about 110'},
 }
 EXHAUSTIVE = {'quick': False, 'thorough': False}
@@ -156,7 +156,7 @@ def _mol_cases(s, tier, idx):
 
 
 def _fmap_cases(s, tier, idx):
-    nps = 2 if tier == 'quick' else 5
+    nps = 2 if tier == 'quick' else 3
     nsh = 1 if tier == 'quick' else 2
     for li, lab in enumerate(FM_LABELS[tier]):
         for p in range(nps):
